@@ -10,7 +10,7 @@
    byte-exact generator correspondence and judged on the reference machine. *)
 From Coq Require Import ZArith List String Bool.
 From Gigue Require Import Types Bits Isa Enc GenTables Builder BuilderTies Samplers Generator Machine MachineLemmas
-  SplitProofs FragProofs GenLemmas ImageSem CtorSpec C12Defs C12Proofs.
+  SplitProofs FragProofs GenLemmas ImageSem CtorSpec C12Defs C12Proofs GenWF GenWFProps SliceLemmas FloatSign GenWF2 BodyExec BodyBridge GenWF5 FrameExec CodeMem GenWF6 Witness.
 Import ListNotations.
 Open Scope Z_scope.
 
@@ -64,6 +64,43 @@ Proof. exact possible_callees_nonempty. Qed.
 Theorem C01_offset_choice_never_empty_partial : forall mo, 4 <= mo -> 1 <= size_offset_len mo.
 Proof. exact size_offset_len_pos. Qed.
 
+(* PROVED (Layer B, leaf methods; GenWF6 / FrameExec / CodeMem / BodyExec /
+   BodyBridge) for the four non-FIXER variants, every accepted configuration,
+   decision script and emitted image: take any method without call sites; put
+   its EMITTED WORDS anywhere 4-aligned in the code region (RIMI full: on the JIT
+   side, in the JIT domain), the data section and the stack anywhere disjoint
+   from the code, enter at its first instruction with ANY register contents such
+   that the data register holds the data base and sp is 8-aligned with its
+   24-byte frame inside the stack region: the reference machine - fetching,
+   decoding (independent decoder) and executing those bytes - makes exactly
+   |method| steps without any fault and arrives at ra (low bit cleared) with
+   sp, s0, the data register and every other non-usable register equal to
+   their entry values, dom and the CFI stack unchanged, and memory untouched
+   outside the data image and the method's own frame slot [sp-24, sp-16).
+   `_partial`: methods without call sites only; the induction along the call
+   graph (call stubs + callee contracts), PICs, trampolines and the interpreter
+   loop are not composed. *)
+Theorem C01_leaf_methods_run_partial : forall c script img,
+  successful c script img -> non_fixer (c_variant c) ->
+  Forall (fun m => m_depth m = 0 -> m_calls m = 0 ->
+    forall L s,
+      let A := pc s in let n := List.length (m_instrs m) in let S := rget s 2 in
+      CodeMem.regions_ok L -> placement c L -> stack_placement L ->
+      CodeMem.code_at (mem s) A (map generate (m_instrs m)) ->
+      A mod 4 = 0 -> code_lo L <= A -> A + 4 * Z.of_nat n <= code_hi L -> A + 4 * Z.of_nat n < W64 ->
+      (halt_at L < A \/ A + 4 * Z.of_nat n <= halt_at L) ->
+      CodeMem.side_ok (gv c) L A (Z.of_nat n) (dom s) ->
+      env_ok (gv c) L (c_data_reg c) s ->
+      S mod 8 = 0 -> 24 <= S < W64 -> stk_lo L <= S - 24 -> S <= stk_hi L -> 0 <= rget s 8 < W64 ->
+      exists s', run (gv c) L n s = (Next s', n) /\
+        pc s' = (u64 (rget s 1 + 0) / 2) * 2 /\
+        (forall r, 0 <= r -> wr c r = false -> rget s' r = rget s r) /\
+        same_outside L (dsz c) s s' S /\ dom s' = dom s /\ cfi s' = cfi s /\
+        env_ok (gv c) L (c_data_reg c) s')
+    (im_methods img).
+Proof. exact leaf_methods_run. Qed.
+
+Print Assumptions C01_leaf_methods_run_partial.
 Print Assumptions C01_fragments_tied_partial.
 Print Assumptions C01_fragments_legal_partial.
 Print Assumptions C01_body_instructions_legal_partial.
